@@ -84,6 +84,7 @@ int  get_num_threads_max();
 int  probe_index(const char *name);
 void probe_hit(int idx, uint64_t n = 1);
 void probes_reset();
+inline void probes_reset_run() {}
 std::vector<std::pair<std::string,uint64_t> > probes_snapshot();
 #define SIM_PROBE(name) do { static int sim_probe_idx_ = ::sim::probe_index(name); ::sim::probe_hit(sim_probe_idx_); } while (0)
 #define SIM_PROBE_N(name, n) do { static int sim_probe_idx_ = ::sim::probe_index(name); ::sim::probe_hit(sim_probe_idx_, (n)); } while (0)
